@@ -70,6 +70,34 @@ func c13Sched(g *hx.Gen, c int, ac bool, ops []string, policy int) []int {
 }
 
 func c13Gen(g *hx.Gen) {
+	// (0) file-system residue, enumerated first so that a time budget never cuts it off: both
+	// modes x AutoClear x AutoClean x (cycle stays in memory | spills) x (full | partial drain),
+	// one- and two-cycle histories (with AutoClean only the last cycle is drained to EOF)
+	for _, conc := range []bool{false, true} {
+		for _, ac := range []bool{false, true} {
+			for _, aclean := range []bool{false, true} {
+				for _, c := range []int{1, 3} {
+					for _, counts := range [][]int{{0}, {c - 1}, {c}, {2*c + 1}, {c - 1, 2*c + 1}, {2*c + 1, c - 1}, {c - 1, c - 1}} {
+						for _, full := range []bool{true, false} {
+							var ops []string
+							for i, cnt := range counts {
+								if cnt < 0 {
+									cnt = 0
+								}
+								last := i == len(counts)-1
+								pulls := cnt + 1 // drain to io.EOF
+								if (last && !full) || (!last && aclean) {
+									pulls = cnt / 2 // stop before io.EOF (with AutoClean the directory must survive)
+								}
+								ops = c11Cycle(g, ops, c, "i", cnt, pulls, !last, 50)
+							}
+							g.Case(c13Line(conc, c, ac, aclean, "i", ops, nil, "-"))
+						}
+					}
+				}
+			}
+		}
+	}
 	// (1) every single I/O operation of a multi-chunk workload as the failing one, both modes
 	type wl struct {
 		c   int
